@@ -833,7 +833,7 @@ def run(chk):
 def correspondence(chk, drv, inputs, res, seeds, cl):
     """generated inputs: every seed's answer is one of the model's outcomes"""
     out = {"compared": 0, "agree": 0, "skipped_item_subquery": 0, "skipped_rejected": 0, "skipped_multi_rename": 0,
-           "skipped_sqlparse_analyzer": 0, "order_sensitive_in_model": 0, "disagree_established": 0, "disagree_other": 0}
+           "skipped_sqlparse_analyzer": 0, "order_sensitive_in_model": 0, "equal_to_model_order_0": 0, "disagree_established": 0, "disagree_other": 0}
     gen = [x for x in inputs if "ast" in x]
     reqs = []
     for x in gen:
@@ -872,6 +872,10 @@ def correspondence(chk, drv, inputs, res, seeds, cl):
         if len(outs) > 1:
             out["order_sensitive_in_model"] += 1
         out["compared"] += 1
+        # the repaired code (D16) iterates in FROM-clause order = the model's order 0 once `aliasMapping` follows the table group
+        # (patches/HolderOps-D16-alias-map-in-from-order.patch); reported, the requirement is membership in the outcome set
+        if len(views) == 1 and (views[0] == outs[0] or ("error" in views[0] and "error" in outs[0])):
+            out["equal_to_model_order_0"] += 1
         ok = all(in_model_outcomes(v, outs) for v in views)
         if not ok:
             more = model_outcomes(drv, x, 24) or outs
